@@ -231,6 +231,40 @@ class StrMethod(object):
         self.name = name
 
 
+class ObjV(object):
+    """An instance of a small package class (per-call record / accumulator): attributes are kept concretely."""
+    def __init__(self, ci):
+        self.ci = ci
+        self.attrs = {}
+
+
+class LambdaV(object):
+    """A lambda with its defining environment (closures over locals are by reference, as in Python)."""
+    def __init__(self, node, env, fi):
+        self.node, self.env, self.fi = node, env, fi
+
+
+class LazyGen(object):
+    """A generator expression: elements are produced on demand, so a consumer that stops early (next, any, all) does not
+    evaluate the conditions of later items -- exactly Python's behaviour."""
+    def __init__(self, interp, node, items, env, fi):
+        self.interp, self.node, self.items, self.env, self.fi = interp, node, items, env, fi
+        self._it = None
+
+    def __iter__(self):
+        if self._it is None:
+            self._it = self._produce()
+        return self._it
+
+    def _produce(self):
+        g = self.node.generators[0]
+        inner = dict(self.env)
+        for x in self.items:
+            self.interp.assign(g.target, x, inner, self.fi)
+            if all(self.interp.truth(self.interp.eval(c, inner, self.fi), c) for c in g.ifs):
+                yield self.interp.eval(self.node.elt, inner, self.fi)
+
+
 class Raised(Exception):
     """An exception raised *by the interpreted code* (or by a modelled primitive)."""
     def __init__(self, inst):
@@ -630,6 +664,8 @@ class Interp(object):
             return
         if isinstance(s, ast.For):
             it = self.eval(s.iter, env, fi)
+            if isinstance(it, LazyGen):
+                it = list(it)
             if not isinstance(it, (list, tuple)):
                 raise AnalysisError('for-loop over a non-list value in %s' % fi.qualname)
             broke = False
@@ -719,12 +755,14 @@ class Interp(object):
                 return          # storing an array's own value back is the identity
             env[target.value.id] = Arr(a.shape, lf_atom(('stored_with_entry_type_of', lf_frozen(a.val), src)),
                                        N(7.0) if a.size1 else None, False)
+        elif isinstance(target, ast.Attribute) and isinstance(target.value, ast.Name) and isinstance(env.get(target.value.id), ObjV):
+            env[target.value.id].attrs[target.attr] = v
         else:
             raise AnalysisError('assignment to `%s` is outside the shape interpreter' % short(target))
 
     # ----------------------------------------------------------------- truth
     def truth(self, v, node=None):
-        if isinstance(v, (bool, int, str, tuple, list)) or v is None:
+        if isinstance(v, (bool, int, str, tuple, list, dict)) or v is None:
             return bool(v)
         if isinstance(v, N):
             return v.v != 0
@@ -736,7 +774,7 @@ class Interp(object):
             if v.size1:
                 return self.truth(v.item, node)
             raise Raised(self.builtin_exc('ValueError', 'The truth value of an array with more than one element is ambiguous', node))
-        if isinstance(v, (Foreign, ClassV, FuncV, ExcInst)):
+        if isinstance(v, (Foreign, ClassV, FuncV, ExcInst, LambdaV, LazyGen, ObjV)):
             return True
         raise AnalysisError('truth value of `%s` is outside the shape interpreter' % (short(node) if node is not None else v))
 
@@ -767,6 +805,17 @@ class Interp(object):
 
     def e_List(self, e, env, fi):
         return [self.eval(x, env, fi) for x in e.elts]
+
+    def e_Dict(self, e, env, fi):
+        out = {}
+        for k, v in zip(e.keys, e.values):
+            if k is None:
+                raise AnalysisError('dict literal with ** expansion')
+            kk = self.eval(k, env, fi)
+            if not isinstance(kk, (str, int)):
+                raise AnalysisError('dict key `%s` is outside the shape interpreter' % short(k))
+            out[kk] = self.eval(v, env, fi)
+        return out
 
     def e_JoinedStr(self, e, env, fi):
         return ''
@@ -958,6 +1007,10 @@ class Interp(object):
                 raise AnalysisError('non-constant slice in `%s`' % short(e))
             return v[lo:hi:st]
         k = self.eval(e.slice, env, fi)
+        if isinstance(v, dict) and isinstance(k, (str, int)):
+            if k in v:
+                return v[k]
+            raise Raised(self.builtin_exc('KeyError', repr(k), e))
         if isinstance(v, (list, tuple, str)) and isinstance(k, int) and not isinstance(k, bool):
             try:
                 return v[k]
@@ -1029,11 +1082,23 @@ class Interp(object):
                             return got
                     if isinstance(val, ast.Constant):
                         return val.value
-                    raise AnalysisError('class attribute %s.%s is outside the shape interpreter' % (v.name, attr))
+                    return self.eval_class_attr(k, val)
                 m = self.idx.lookup(v.ci, attr)
                 if m is not None:
                     return FuncV(m)
             raise AnalysisError('attribute %s.%s is outside the shape interpreter' % (v.name, attr))
+        if isinstance(v, ObjV):
+            if attr in v.attrs:
+                return v.attrs[attr]
+            m = self.idx.lookup(v.ci, attr)
+            if m is not None:
+                if m.is_property:
+                    return self.call_function(m, [], bound=v, node=node)
+                return FuncV(m, bound=None if m.is_static else v)
+            k, val = self.idx.lookup_attr(v.ci, attr)
+            if val is not None:
+                return self.eval_class_attr(k, val)
+            raise Raised(self.builtin_exc('AttributeError', "object has no attribute '%s'" % attr, node))
         if isinstance(v, list):
             if attr in ('pop', 'append', 'insert', 'copy', 'reverse'):
                 return ListMethod(v, attr)
@@ -1050,6 +1115,14 @@ class Interp(object):
         if isinstance(v, (int, float)) and not isinstance(v, bool) and attr == 'is_integer':
             return NumMethod(N(v), attr)
         raise AnalysisError('attribute `%s` is outside the shape interpreter' % short(node))
+
+    def eval_class_attr(self, ci, val):
+        """A class-level table: evaluated in the class namespace (its functions are plain functions there)."""
+        env = {name: FuncV(m) for name, m in ci.methods.items()}
+        for name, node in ci.attrs.items():
+            if node is not val and isinstance(node, ast.Constant):
+                env[name] = node.value
+        return self.eval(val, env, _ModuleCtx(ci.module))
 
     def find_method(self, arr, name):
         """The package's own definition of a method on MathArray (None -> ndarray's)."""
@@ -1096,6 +1169,19 @@ class Interp(object):
     def call(self, f, args, kwargs, node, fi):
         if isinstance(f, FuncV):
             return self.call_function(f.fi, args, kwargs, bound=f.bound, node=node)
+        if isinstance(f, LambdaV):
+            names = [x.arg for x in f.node.args.args]
+            if kwargs or len(args) != len(names):
+                raise AnalysisError('call of a lambda with a different number of arguments in `%s`' % short(node, 60))
+            inner = dict(f.env)
+            inner.update(zip(names, args))
+            self.depth += 1
+            try:
+                if self.depth > MAX_DEPTH:
+                    raise AnalysisError('call depth exceeded in a lambda')
+                return self.eval(f.node.body, inner, f.fi)
+            finally:
+                self.depth -= 1
         if isinstance(f, NdMethod):
             return self.ndarray_method(f.selfv, f.name, args, node)
         if isinstance(f, NumMethod):
@@ -1121,6 +1207,15 @@ class Interp(object):
                 raise AnalysisError('construction of a MathArray in interpreted code (`%s`)' % short(node))
             if f.name in ('numbers.Number',):
                 raise AnalysisError('call of an abstract class')
+            if f.ci is not None and f.ci.module.name.startswith('mitxgraders') and not any(
+                    b.split('.')[-1] in ('ndarray', 'ObjectWithSchema') for b in f.ci.mro):
+                obj = ObjV(f.ci)
+                init = self.idx.lookup(f.ci, '__init__')
+                if init is not None:
+                    self.call_function(init, args, kwargs, bound=obj, node=node)
+                elif args or kwargs:
+                    raise AnalysisError('class %s takes no arguments' % f.name)
+                return obj
             raise AnalysisError('call of class %s is outside the shape interpreter' % f.name)
         if isinstance(f, BuiltinV):
             return self.builtin(f.name, args, kwargs, node, fi)
@@ -1186,6 +1281,28 @@ class Interp(object):
             if v.kind == 'complex':
                 raise Raised(self.builtin_exc('TypeError', "type complex doesn't define __round__ method", node))
             return N(round(v.v), False)
+        if name == 'next' and args and len(args) <= 2:
+            src = args[0]
+            if isinstance(src, LazyGen):
+                for x in src:
+                    return x
+            elif isinstance(src, list):
+                if src:
+                    return src.pop(0)      # a generator function was run eagerly and handed out as a list
+            else:
+                raise AnalysisError('next() of `%s`' % describe(src))
+            if len(args) == 2:
+                return args[1]
+            raise Raised(self.builtin_exc('StopIteration', '', node))
+        if name in ('all', 'any') and len(args) == 1 and isinstance(args[0], LazyGen):
+            for x in args[0]:
+                t = self.truth(x, node)
+                if name == 'any' and t:
+                    return True
+                if name == 'all' and not t:
+                    return False
+            return name == 'all'
+        args = [list(a) if isinstance(a, LazyGen) else a for a in args]
         if name in ('tuple', 'list') and len(args) <= 1:
             if not args:
                 return () if name == 'tuple' else []
@@ -1253,6 +1370,10 @@ class Interp(object):
             return {'tuple', 'object'}
         if isinstance(v, ExcInst):
             return set(v.cls.chain) | {'object'}
+        if isinstance(v, ObjV):
+            return set(v.ci.mro) | {'object'}
+        if isinstance(v, (FuncV, LambdaV)):
+            return {'function', 'object'}
         if isinstance(v, Foreign) or v is None:
             return {'object'}
         raise AnalysisError('isinstance of `%s` is outside the shape interpreter' % describe(v))
@@ -1296,6 +1417,8 @@ class Interp(object):
             raise AnalysisError('comprehension `%s` is outside the shape interpreter' % short(e, 60))
         g = e.generators[0]
         it = self.eval(g.iter, env, fi)
+        if isinstance(it, LazyGen):
+            it = list(it)
         if not isinstance(it, (list, tuple)):
             raise AnalysisError('comprehension over a non-list value in `%s`' % short(e, 60))
         out = []
@@ -1306,7 +1429,22 @@ class Interp(object):
                 out.append(self.eval(e.elt, inner, fi))
         return out
 
-    e_GeneratorExp = e_ListComp
+    def e_GeneratorExp(self, e, env, fi):
+        if len(e.generators) != 1 or e.generators[0].is_async:
+            raise AnalysisError('comprehension `%s` is outside the shape interpreter' % short(e, 60))
+        # the outermost iterable is evaluated at once (as in Python), the rest lazily
+        it = self.eval(e.generators[0].iter, env, fi)
+        if isinstance(it, LazyGen):
+            it = list(it)
+        if not isinstance(it, (list, tuple)):
+            raise AnalysisError('generator over a non-list value in `%s`' % short(e, 60))
+        return LazyGen(self, e, list(it), dict(env), fi)
+
+    def e_Lambda(self, e, env, fi):
+        a = e.args
+        if a.vararg or a.kwarg or a.kwonlyargs or a.posonlyargs or a.defaults:
+            raise AnalysisError('lambda `%s` has a signature outside the shape interpreter' % short(e, 60))
+        return LambdaV(e, env, fi)
 
     # ----------------------------------------------------------------- arithmetic
     def e_BinOp(self, e, env, fi):
@@ -1515,6 +1653,12 @@ class Interp(object):
             if a.size1:
                 item = N(a.item.v ** k.v)
             return Arr(a.shape, lf_atom(('mpow', lf_frozen(a.val), k.v)), item, a.singular)
+        if dotted.startswith('operator.') and dotted.split('.')[-1] in ('add', 'sub', 'mul', 'truediv', 'pow', 'mod', 'neg') and not kwargs:
+            fn = dotted.split('.')[-1]
+            if fn == 'neg' and len(args) == 1:
+                return self.negate(args[0], node)
+            if len(args) == 2:
+                return self.binop(fn, args[0], args[1], node)
         if dotted in ('numpy.round', 'numpy.round_', 'numpy.around', 'numpy.rint', 'numpy.floor', 'numpy.ceil', 'numpy.trunc',
                       'numpy.abs', 'numpy.absolute', 'numpy.real', 'numpy.imag') and len(args) == 1 and not kwargs \
                 and isinstance(self.lift(args[0]), N):
